@@ -11,7 +11,7 @@ import os
 PROPERTY = "C09"
 STATE_IS_CASE = True
 
-SIGMA = ["\n", "    ", "'", '"', "'''", '"""', "#", "\\", "(", ")", "[", "]", "{", "}", ":", "=", "@", ";", ",", " ", "def ", "class ", "x"]
+SIGMA = ["\n", "    ", "'", '"', "'''", '"""', "#", "\\", "(", ")", "[", "]", "{", "}", ":", "=", "@", ";", ",", " ", "def ", "class ", "x", "\r\n", "\t", "\f"]
 SIGMA_SMALL = ["\n", "'", '"""', "\\", "(", ")", "def ", ":", "#", "x"]
 EDIT_TOKENS = ["'", '"', '"""', "'''", "(", ")", "\\", "#", ":", "["]
 
